@@ -396,8 +396,16 @@ pub fn oracle_depth(case: &[u8], obs: &mut Obs) -> Result<(), Fail> {
     }
 }
 
+/// raw input bytes (fuzzer artifacts): heap placement
+pub fn oracle_raw(case: &[u8], obs: &mut Obs) -> Result<(), Fail> {
+    let mut c = vec![0u8];
+    c.extend_from_slice(case);
+    oracle(&c, obs)
+}
+
 pub fn subs() -> Vec<Sub<'static>> {
     vec![
+        Sub { name: "fuzz-inputs", oracle: &oracle_raw, minimise_bytes: true },
         Sub { name: "inputs", oracle: &oracle, minimise_bytes: false },
         Sub { name: "alignment", oracle: &oracle, minimise_bytes: false },
         Sub { name: "mutation-sweep", oracle: &oracle, minimise_bytes: false },
@@ -427,17 +435,17 @@ pub fn run(ctx: &Ctx) {
             }
         }
     }
-    ctx.cases(&subs[3], &list);
+    ctx.cases(&subs[4], &list);
 
     let p = DocParams { ws: 2, max_depth: 6, max_items: 6, allow_inf: true, allow_lone_surrogates: true, dup_keys: true, ..DocParams::default() };
     let pc = p.clone();
-    ctx.search(&subs[0], "valid", ctx.n(30_000, 500_000), 500, &move |src: &mut Src| {
+    ctx.search(&subs[1], "valid", ctx.n(30_000, 500_000), 500, &move |src: &mut Src| {
         let mut c = vec![src.byte() % 3];
         c.extend_from_slice(&gens::gen_doc(src, &pc));
         c
     });
     let pc = p.clone();
-    ctx.search(&subs[0], "mutated", ctx.n(80_000, 1_500_000), 500, &move |src: &mut Src| {
+    ctx.search(&subs[1], "mutated", ctx.n(80_000, 1_500_000), 500, &move |src: &mut Src| {
         let mut c = vec![src.byte() % 3];
         let d = gens::gen_doc(src, &pc);
         let mut m = gens::mutate(src, &d).0;
@@ -447,7 +455,7 @@ pub fn run(ctx: &Ctx) {
         c.extend_from_slice(&m);
         c
     });
-    ctx.search(&subs[0], "soup", ctx.n(40_000, 800_000), 200, &|src: &mut Src| {
+    ctx.search(&subs[1], "soup", ctx.n(40_000, 800_000), 200, &|src: &mut Src| {
         let mut c = vec![src.byte() % 3];
         if src.bool() {
             c.extend_from_slice(src.rest());
@@ -488,7 +496,7 @@ pub fn run(ctx: &Ctx) {
 
     // alignment sweep: golden documents padded to every total length, every offset
     let quick = ctx.quick();
-    ctx.sweep(&subs[1], false, &|shard, n, emit| {
+    ctx.sweep(&subs[2], false, &|shard, n, emit| {
         let mut docs = gens::golden_docs();
         for extra in ["0.0000000000123456", "0.1234567891234567", "[0.12345678901234567,1]", "{\"a\":0.0000000000000001234}", "123456789012345.6789", "\"\\ud83d\\ude00\"", "[\"0123456789012345678901234567\\\\\"]", "-0.0e-0"] {
             docs.push(extra.as_bytes().to_vec());
@@ -531,7 +539,7 @@ pub fn run(ctx: &Ctx) {
     // systematic single-mutation sweep of a document set, inputs ending at a guard page
     let ndocs = ctx.n(24, 300);
     let seed = ctx.seed;
-    ctx.sweep(&subs[2], false, &|shard, n, emit| {
+    ctx.sweep(&subs[3], false, &|shard, n, emit| {
         let pm = DocParams { ws: 1, max_depth: 3, max_items: 4, long_strings: false, align: 0, allow_inf: true, allow_lone_surrogates: true, ..DocParams::default() };
         for i in (shard..ndocs).step_by(n) {
             let bytes = super::c02::pseudo_bytes(seed ^ 0xc01, i as u64, 160);
